@@ -413,6 +413,13 @@ def main(chk):
     for nmsg, fault in ((2, 'none'), (2, 'answers'), (2, 'write-error'), (2, 'timeout')) + (((3, 'write-error'), (3, 'timeout')) if chk.thorough else ()):
         tasks.append((o3_mirror_task, (prog, nmsg, fault)))
     chk.parallel(_dispatch, tasks)
+    # a mirror's pool is built without plugins: its connections must not run the general [plugins] block (prewarm queries are not copies of
+    # anything the mirrored server got) -- bb8's connect hook from MIR (the C18 obligation instantiated for this property)
+    import checks.c18 as c18mod
+    try:
+        c18mod.o4_connect(chk, prog, props=('C20',))
+    except Inconclusive as e:
+        chk.note_inconclusive('O4-connect: %s' % e)
 
 
 if __name__ == '__main__':
